@@ -17,7 +17,8 @@ NOT_DECIDED = ["that the encoded bytes decode to an equal dataset at the request
 
 
 def tasks(tier):
-    return [S.ValidateStatusTask("C21/"), S.FindScpTask("C20/")] + [S.SingleScpTask(w) for w in S.SINGLE] + [S.RelevantPatientTask()] + [S.GetMoveScpTask('get'), S.GetMoveScpTask('move')]
+    from contracts.C25 import EncodeFailureTask
+    return [EncodeFailureTask("C21/"), S.ValidateStatusTask("C21/"), S.FindScpTask("C20/")] + [S.SingleScpTask(w) for w in S.SINGLE] + [S.RelevantPatientTask()] + [S.GetMoveScpTask('get'), S.GetMoveScpTask('move')]
 
 
 def replay(rec):
